@@ -445,6 +445,8 @@ fn walk_behave() -> Box<dyn FnMut(usize, &Cb) -> Behavior> {
 /// then a sentinel PING: the numbering of each reply depends only on its own request.
 struct KindWalks {
     depth: usize,
+    /// only the statement commands (two statements, long data, both closes) plus a query and PING
+    core: bool,
 }
 impl KindWalks {
     const IDS: [u8; 7] = [0, 1, 42, 127, 253, 254, 255];
@@ -479,6 +481,7 @@ impl KindWalks {
             ("execute #2 long", ClientCmd::new(cmd_execute(2, 0, 1, &exec_block(&[long], true)))),
             ("long data #2", ClientCmd::new(cmd_long(2, 0, b"chunk"))),
             ("close #1", ClientCmd::new(cmd_close(1))),
+            ("close #2", ClientCmd::new(cmd_close(2))),
             ("close #77", ClientCmd::new(cmd_close(77))),
             ("ping", ping()),
             ("init db", ClientCmd::new(with_byte(COM_INIT_DB, b"db"))),
@@ -488,8 +491,15 @@ impl KindWalks {
             ("SELECT @@ probe", q(b"SELECT @@max_allowed_packet")),
         ]
     }
-    fn conv(&self, idx: u64) -> (Conv, String) {
+    fn alpha(&self) -> Vec<(&'static str, ClientCmd)> {
         let a = Self::alphabet();
+        if !self.core {
+            return a;
+        }
+        a.into_iter().filter(|(n, _)| n.contains('#') && !n.contains("77") || *n == "ping" || *n == "query->3 rows").collect()
+    }
+    fn conv(&self, idx: u64) -> (Conv, String) {
+        let a = self.alpha();
         let mut rad = vec![Self::IDS.len() as u64];
         rad.extend(std::iter::repeat(a.len() as u64).take(self.depth));
         let d = digits(idx, &rad);
@@ -511,10 +521,10 @@ impl Family for KindWalks {
         crate::engine::rot(idx)
     }
     fn name(&self) -> String {
-        format!("exchange-kind-walks-depth-{}", self.depth)
+        format!("{}-walks-depth-{}", if self.core { "statement-exchange" } else { "exchange-kind" }, self.depth)
     }
     fn len(&self) -> u64 {
-        Self::IDS.len() as u64 * (Self::alphabet().len() as u64).pow(self.depth as u32)
+        Self::IDS.len() as u64 * (self.alpha().len() as u64).pow(self.depth as u32)
     }
     fn run(&self, idx: u64, st: &mut Stats) -> Result<(), Violation> {
         let (conv, what) = self.conv(idx);
@@ -533,6 +543,10 @@ impl Family for KindWalks {
                 }
                 COM_STMT_PREPARE if &p[1..] != b"bad" => open[1] = true,
                 COM_STMT_CLOSE if p[1] == 1 => open[1] = false,
+                COM_STMT_CLOSE if p[1] == 2 => {
+                    open[2] = false;
+                    pending = false;
+                }
                 COM_STMT_SEND_LONG_DATA => {
                     skip = !open[2];
                     pending = true;
@@ -698,7 +712,9 @@ pub fn build(quick: bool) -> Check {
     }
     families.push(Box::new(HsIds));
     families.push(Box::new(KindHistory));
-    families.push(Box::new(KindWalks { depth: if quick { 4 } else { 5 } }));
+    families.push(Box::new(KindWalks { depth: if quick { 4 } else { 5 }, core: false }));
+    families.push(Box::new(KindWalks { depth: if quick { 5 } else { 6 }, core: true }));
+    families.push(Box::new(KindWalks { depth: if quick { 6 } else { 7 }, core: true }));
     families.push(Box::new(Fragmented {
         firsts: if quick { vec![0, 254] } else { vec![0, 1, 253, 254, 255] },
         nfrag: if quick { vec![2, 3] } else { vec![2, 3, 4] },
@@ -712,7 +728,7 @@ pub fn build(quick: bool) -> Check {
     Check {
         id: "C05",
         level: "model_checking",
-        rule: "every command kind after every kind of previous exchange x request ids {0,1,42,127,254,255}; every sequence of 4 (thorough: 5) exchanges over 20 kinds (replies of 1..304 packets, shim and library errors, chained resultsets, PREPARE replies, unanswered commands) with per-position request ids around the wrap; request sequence id x response length (1 and 4..520 packets, text and binary), each followed by a second command with an unrelated id; handshake responses with every id; 2-, 3- (thorough: 4-) fragment requests starting at ids around the wrap, with reads ending at every subset of the fragment boundaries; responses whose single row spans 2..4 maximal packets; responses of 40 KiB..1 MiB in 5..2000 packets under transport writes of at most 5 / 1460 / 23359 / 65536 bytes; four responses re-run with exactly one transport write accepting 1 byte / half / all but one byte, for every write of the undisturbed run. Oracle: packet i of a reply carries (last request id + 1 + i) mod 256. Non-trivial = request id != 0 (the only id the test clients use).".into(),
+        rule: "every command kind after every kind of previous exchange x request ids {0,1,42,127,254,255}; every sequence of 4 (thorough: 5) exchanges over 21 kinds, and of 5-6 (6-7) over the 10 statement kinds (two statements, long data, closes, a query, PING), (replies of 1..304 packets, shim and library errors, chained resultsets, PREPARE replies, unanswered commands) with per-position request ids around the wrap; request sequence id x response length (1 and 4..520 packets, text and binary), each followed by a second command with an unrelated id; handshake responses with every id; 2-, 3- (thorough: 4-) fragment requests starting at ids around the wrap, with reads ending at every subset of the fragment boundaries; responses whose single row spans 2..4 maximal packets; responses of 40 KiB..1 MiB in 5..2000 packets under transport writes of at most 5 / 1460 / 23359 / 65536 bytes; four responses re-run with exactly one transport write accepting 1 byte / half / all but one byte, for every write of the undisturbed run. Oracle: packet i of a reply carries (last request id + 1 + i) mod 256. Non-trivial = request id != 0 (the only id the test clients use).".into(),
         assumptions: vec!["sequence ids of server packets are read by the independent framer (refwire)".into()],
         bounds: json!({"max_response_packets": 520, "fragments": if quick {2} else {3}}),
         exhaustive: true,
